@@ -600,6 +600,50 @@ def read_request_shm_pointer(has_off: bool, off_ok: bool, off: int, has_len: boo
 # ---------------------------------------------------------------------------
 
 
+class _AttachEnv:
+    """Make the attach outcome the solver chose *real*: a POSIX segment for which the un-stubbed
+    ShmSegment.attach does what the contract stub did (the stub ignores the name; the real function
+    does not, so the counterexample's 0..3 name bytes alone cannot reproduce an outcome)."""
+
+    def __init__(self, outcome: int) -> None:
+        self.outcome = outcome
+        self.owned: list = []
+        self.name: bytes | None = None
+        self.size = shm_mod.HEADER_SIZE + 65536
+
+    def __enter__(self) -> "_AttachEnv":
+        import os
+        from multiprocessing.shared_memory import SharedMemory
+
+        k = self.outcome
+        if k == 0:  # a genuine vgi-rpc segment
+            seg = shm_mod.ShmSegment.create(self.size)
+            self.owned.append(seg)
+            self.name, self.size = seg.name.encode(), seg.size
+        elif k == 1:  # FileNotFoundError: no such segment
+            self.name = b"verif-no-such-segment-%d" % os.getpid()
+        elif k == 3:  # ValueError: a foreign segment that is large enough but carries no vgi-rpc header
+            raw = SharedMemory(create=True, size=4096)
+            self.owned.append(raw)
+            self.name, self.size = raw.name.encode(), raw.size
+        elif k == 4:  # OSError: a name the kernel refuses (EINVAL)
+            self.name = b""
+        elif k == 5:  # struct.error: a foreign segment smaller than the fixed header
+            raw = SharedMemory(create=True, size=10)
+            self.owned.append(raw)
+            self.name, self.size = raw.name.encode(), raw.size
+        # k == 2 (PermissionError) cannot be staged as root: keep the counterexample's own name
+        return self
+
+    def __exit__(self, *exc: object) -> None:
+        for o in self.owned:
+            try:
+                o.close()
+                o.unlink()
+            except Exception:  # noqa: BLE001
+                pass
+
+
 def _replay_attach(a: dict) -> str | None:
     args = dict(a)
     args.setdefault("has_name", True)
@@ -609,7 +653,21 @@ def _replay_attach(a: dict) -> str | None:
     if "off" in args:  # the pointer-request item always carries offset and length
         args.setdefault("has_off", True)
         args.setdefault("has_len", True)
-    return _serve_and_observe(_md_from_args(args), args["rows"], 2)
+    # 1. the request exactly as the solver produced it
+    dead = _serve_and_observe(_md_from_args(args), args["rows"], 2)
+    if dead:
+        return dead
+    # 2. the same request with the chosen attach outcome staged for real
+    reaches_attach = args.get("has_name") and args.get("has_size") and args.get("size_ok", True) and not args.get("md_none")
+    if not reaches_attach or "attach" not in args:
+        return None
+    with _AttachEnv(int(args["attach"])) as env:
+        if env.name is None:
+            return None
+        mdd = _md_from_args(args)
+        mdd[md.SHM_SEGMENT_NAME_KEY] = env.name
+        mdd[md.SHM_SEGMENT_SIZE_KEY] = str(env.size).encode()
+        return _serve_and_observe(mdd, args["rows"], 2)
 
 
 @cond(q=60, t=240, stubs=[_STUB_INT, _STUB_ATTACH], encoded=[srv._maybe_attach_shm], replay=_replay_attach,
@@ -652,13 +710,17 @@ def _replay_refresh(a: dict) -> str | None:
     owner_old = shm_mod.ShmSegment.create(shm_mod.HEADER_SIZE + 65536)
     owner_new = shm_mod.ShmSegment.create(shm_mod.HEADER_SIZE + 65536)
     conn = srv._ConnectionShm()
+    staged: list = []
     try:
         old = None
         if a.get("cached"):
             old = shm_mod.ShmSegment.attach(owner_old.name, owner_old.size, track=False)
             conn.segment, conn.name = old, bytes(a["cached_name"])
         ok = a.get("attach") == 0
-        name = owner_new.name.encode() if ok else b"verif-no-such-segment"
+        env = _AttachEnv(int(a.get("attach", 1)))
+        env.__enter__()
+        staged.append(env)
+        name = owner_new.name.encode() if ok else (env.name if env.name is not None else b"verif-no-such-segment")
         if a.get("cached") and bytes(a["cached_name"]) == bytes(a["name"]):
             name = bytes(a["cached_name"])  # same name as cached: refresh must be a no-op
         fields = {md.SHM_SEGMENT_NAME_KEY: name}
@@ -678,6 +740,8 @@ def _replay_refresh(a: dict) -> str | None:
         return None
     finally:
         conn.close()
+        for env_ in staged:
+            env_.__exit__()
         for sg in (owner_old, owner_new):
             try:
                 sg.close()
